@@ -168,6 +168,7 @@ func main() {
 	var covered []string
 	var skeletons []string
 	var staleDecl []string
+	var unlockStyle []string
 	fetched := map[string][]string{} // struct -> guarded fields (declared or inferred) its status fetcher reads
 	for _, sp := range specs {
 		fc := load(repo, sp)
@@ -204,6 +205,42 @@ func main() {
 			for c := range fc.cbFields {
 				callbacks = append(callbacks, c)
 			}
+			// how every method of the Listener that takes its mutex gives it back: by a DEFERRED unlock
+			// (runs when the handler panics and controller-runtime recovers the reconcile) or by a plain
+			// statement after the call (skipped by a panic: the mutex stays held for ever)
+			var ws []string
+			for name, fd := range fc.funcs {
+				if !fc.primary[fd] || fd.Recv == nil || recvType(fd.Recv.List[0].Type) != "Listener" {
+					continue
+				}
+				fc.cur = fd
+				locks, deferred, plain := 0, 0, 0
+				ast.Inspect(fd.Body, func(x ast.Node) bool {
+					switch t := x.(type) {
+					case *ast.FuncLit:
+						return false
+					case *ast.DeferStmt:
+						if op, ok := fc.lockOp(t.Call); ok && (op == "Rel" || op == "RelR") {
+							deferred++
+						}
+						return false
+					case *ast.ExprStmt:
+						if op, ok := fc.lockOp(t.X); ok {
+							if op == "Acq" || op == "AcqR" {
+								locks++
+							} else {
+								plain++
+							}
+						}
+					}
+					return true
+				})
+				if locks > 0 {
+					ws = append(ws, fmt.Sprintf("(%q, %v)", name, deferred == locks && plain == 0))
+				}
+			}
+			sort.Strings(ws)
+			unlockStyle = ws
 		}
 		if m, ok := fetcherMethods[sp.strct]; ok && sp.tag == "" {
 			q := sp.strct + "." + m
@@ -446,12 +483,16 @@ func main() {
 	b.WriteString("Definition may_leak : list string := " + strList(dedup(mayLeak)) + ".\n")
 	b.WriteString("Definition spec_problems : list string := " + strList(problems) + ".\n")
 	b.WriteString("Definition listener_callbacks : list string := " + strList(callbacks) + ".\n")
+	b.WriteString("(* Listener method that takes the Listener mutex, every unlock is a deferred one *)\n")
+	b.WriteString("Definition wrapper_unlocks : list (string * bool) := [" + strings.Join(unlockStyle, "; ") + "].\n")
 	b.WriteString("(* reconciler type, expression registered as its Handler *)\n")
 	b.WriteString("Definition registered : list (string * string) := " + pairList(registered) + ".\n")
 	b.WriteString("(* program, Listener callback it installs *)\n")
 	b.WriteString("Definition main_callbacks : list (string * string) := " + pairList(mains) + ".\n")
 	b.WriteString("(* status fetcher, its struct, every receiver field it touches *)\n")
 	b.WriteString("Definition fetchers : list (string * string * list string) := [" + strings.Join(fetchers, "; ") + "].\n")
+	b.WriteString("(* program, name a function literal used as status fetcher is stored under, fields / methods of the program's controller struct it touches *)\n")
+	b.WriteString("Definition fetcher_closures : list (string * string * list string) := [" + strings.Join(fetcherClosures(repo), "; ") + "].\n")
 	b.WriteString("(* program, fetcher method it hands to the status reconcilers *)\n")
 	b.WriteString("Definition fetchers_wired : list (string * string) := " + pairList(wiredFetchers(repo)) + ".\n")
 	b.WriteString("(* control skeleton of the announcer's methods: (a return outside every loop?, per loop in source\n   order (nesting depth, contains return, contains break of the loop, contains continue of the loop, names called in its body)) *)\n")
@@ -1560,6 +1601,92 @@ func receiverFields(fd *ast.FuncDecl) []string {
 		return true
 	})
 	sort.Strings(out)
+	return out
+}
+
+// fetcherClosures: function literals that end up as a status fetcher (assigned to / stored under a
+// name containing "fetch": layer2StatusFetchFunc, layer2StatusFetcher, Layer2StatusFetcher,
+// bgpPeersFetcher, PoolCountersFetcher, ...) in the two programs.  They run in the status reconcilers,
+// OUTSIDE the Listener mutex, so their bodies count as fetcher bodies: every field or method of the
+// program's `controller` struct they touch (state the handlers own under the Listener mutex) is listed.
+// (program, name the closure is stored under, controller fields / methods touched)
+func fetcherClosures(repo string) []string {
+	var out []string
+	for _, prog := range []string{"controller", "speaker"} {
+		_, f := parse(repo, prog+"/main.go")
+		if f == nil {
+			continue
+		}
+		members := map[string]bool{} // fields and methods of `controller`
+		for _, d := range f.Decls {
+			switch t := d.(type) {
+			case *ast.GenDecl:
+				for _, sp := range t.Specs {
+					if ts, ok := sp.(*ast.TypeSpec); ok && ts.Name.Name == "controller" {
+						if st, ok := ts.Type.(*ast.StructType); ok {
+							for _, fld := range st.Fields.List {
+								for _, n := range fld.Names {
+									members[n.Name] = true
+								}
+							}
+						}
+					}
+				}
+			case *ast.FuncDecl:
+				if t.Recv != nil && len(t.Recv.List) == 1 && recvType(t.Recv.List[0].Type) == "controller" {
+					members[t.Name.Name] = true
+				}
+			}
+		}
+		isFetch := func(name string) bool { return strings.Contains(strings.ToLower(name), "fetch") }
+		nameOf := func(e ast.Expr) string {
+			switch t := e.(type) {
+			case *ast.Ident:
+				return t.Name
+			case *ast.SelectorExpr:
+				return t.Sel.Name
+			}
+			return ""
+		}
+		record := func(name string, e ast.Expr) {
+			lit, ok := e.(*ast.FuncLit)
+			if !ok || !isFetch(name) {
+				return
+			}
+			seen := map[string]bool{}
+			var touched []string
+			ast.Inspect(lit.Body, func(x ast.Node) bool {
+				if s, ok := x.(*ast.SelectorExpr); ok {
+					if _, isID := s.X.(*ast.Ident); isID && members[s.Sel.Name] && !isFetch(s.Sel.Name) && !seen[s.Sel.Name] {
+						seen[s.Sel.Name] = true
+						touched = append(touched, s.Sel.Name)
+					}
+				}
+				return true
+			})
+			sort.Strings(touched)
+			out = append(out, fmt.Sprintf("(%q, %q, %s)", prog, name, strList(touched)))
+		}
+		ast.Inspect(f, func(x ast.Node) bool {
+			switch t := x.(type) {
+			case *ast.AssignStmt:
+				for i, l := range t.Lhs {
+					if i < len(t.Rhs) {
+						record(nameOf(l), t.Rhs[i])
+					}
+				}
+			case *ast.ValueSpec:
+				for i, n := range t.Names {
+					if i < len(t.Values) {
+						record(n.Name, t.Values[i])
+					}
+				}
+			case *ast.KeyValueExpr:
+				record(nameOf(t.Key), t.Value)
+			}
+			return true
+		})
+	}
 	return out
 }
 
